@@ -126,6 +126,10 @@ func TestC02(t *testing.T) {
 					out.emit("bits", "c02", []string{cfg, ty.Sexp(), v.Sexp()}, c02Obs(ty, v, h))
 				}
 			}
+			for _, ty := range wideContainers() {
+				v := g.val(ty)
+				out.emit("wide", "c02", []string{cfg, ty.Sexp(), v.Sexp()}, c02Obs(ty, v, h))
+			}
 			for k := 0; k < n; k++ {
 				ty := g.ty(1 + g.r.Intn(3))
 				v := g.val(ty)
